@@ -156,6 +156,7 @@ fn client_in_library(id: usize) -> bool {
 /// Runs a library call with the client marked as executing code under test.
 fn in_library<T>(id: usize, f: impl FnOnce() -> T) -> T {
     IN_LIBRARY[id % 64].store(true, Ordering::SeqCst);
+    api_entry_visit();
     let r = f();
     // single-stepping never outlives the call it was started in
     step::disarm();
@@ -185,11 +186,7 @@ pub fn point_hook(site: &'static str) {
             shared.preempt_at_next_hook.fetch_add(1, Ordering::Relaxed);
             preempt_now();
         }
-        let visit = HOOK_VISITS.with(|v| {
-            v.set(v.get() + 1);
-            v.get()
-        });
-        shared.visits[id].store(visit, Ordering::Relaxed);
+        let visit = next_visit(id, &shared);
         if let Some(ix) = site_index(site) {
             shared.site_hits[ix].fetch_add(1, Ordering::Relaxed);
             if shared.site_enabled[ix] && CRITICAL_SITES.load(Ordering::Relaxed) & (1u64 << ix) == 0 {
@@ -200,18 +197,46 @@ pub fn point_hook(site: &'static str) {
                 PARKED_SITE[id % 64].store(0, Ordering::SeqCst);
             }
         }
-        if !shared.preempts.is_empty() {
-            if let Some(p) = shared.preempts.iter().find(|p| p.client == id && p.visit == visit) {
-                let (steps, to) = (p.steps, p.to);
-                STEP_CTX.with(|c| c.set((id, Arc::as_ptr(&shared), to)));
-                drop(shared);
-                if steps == 0 || !step::available() {
-                    preempt_now();
-                } else {
-                    step::arm(steps);
-                }
-            }
+        maybe_preempt(id, shared, visit);
+    }
+}
+
+/// Numbers the points at which an instruction-granular preemption can start: every call of the in-build hook and
+/// the entry of every call into the library.
+fn next_visit(id: usize, shared: &Shared) -> u64 {
+    let visit = HOOK_VISITS.with(|v| {
+        v.set(v.get() + 1);
+        v.get()
+    });
+    shared.visits[id].store(visit, Ordering::Relaxed);
+    visit
+}
+
+/// If the run specification names this visit: hand over right here, or start single-stepping. Must be the last
+/// thing its caller does before it returns into the code under test.
+#[inline(always)]
+fn maybe_preempt(id: usize, shared: Arc<Shared>, visit: u64) {
+    if shared.preempts.is_empty() {
+        return;
+    }
+    if let Some(p) = shared.preempts.iter().find(|p| p.client == id && p.visit == visit) {
+        let (steps, to) = (p.steps, p.to);
+        STEP_CTX.with(|c| c.set((id, Arc::as_ptr(&shared), to)));
+        drop(shared);
+        if steps == 0 || !step::available() {
+            preempt_now();
+        } else {
+            step::arm(steps);
         }
+    }
+}
+
+/// The entry of a call into the library is a visit too (the library has no hook before its first own one).
+fn api_entry_visit() {
+    let ctx = CLIENT.with(|c| c.borrow().as_ref().map(|(id, sh)| (*id, sh.clone())));
+    if let Some((id, shared)) = ctx {
+        let visit = next_visit(id, &shared);
+        maybe_preempt(id, shared, visit);
     }
 }
 
